@@ -1064,7 +1064,7 @@ theorem runClose_orig_ok (hc : cfg.code.closeP = closeOrig cfg.stack) (s : St) (
   rw [d1]
   simp only [hcc, R.ok, beq_self_eq_true, if_true] at e1 ⊢
   rw [e1]
-  simp [hlp, R.ok]
+  simp [hlp]
 
 
 end Scrapli.Lifecycle
